@@ -395,3 +395,24 @@ Proof.
     rewrite <- (mt_mt (prot t)) at 2. apply angle_conjugation_invariant. now apply Orth_mt. }
   destruct Hrel as [-> | ->]; unfold reduce_pose; now rewrite A.
 Qed.
+
+
+(* ---------- the same for APE: the rotation-angle APE does not depend on the body-frame convention ---------- *)
+Theorem ape_rotation_angle_body_frame_invariant rel (ref est t : PoseR) : Orth (prot est) -> Orth (prot t) ->
+  rel = rotation_angle_rad \/ rel = rotation_angle_deg ->
+  ape_pairR rel (pmul ref t) (pmul est t) = ape_pairR rel ref est.
+Proof.
+  intros Oe Ot Hrel.
+  assert (A : angleR (prot (prel (pmul est t) (pmul ref t))) = angleR (prot (prel est ref))).
+  { rewrite (prel_right est ref t Oe). cbn [pmul pinv prot]. rewrite <- mm_assoc.
+    rewrite <- (mt_mt (prot t)) at 2. apply angle_conjugation_invariant. now apply Orth_mt. }
+  destruct Hrel as [-> | ->]; unfold ape_pair, relative_se3, reduce_pose; now rewrite A.
+Qed.
+Theorem ape_rotation_angle_body_frame_invariant_traj rel (t : PoseR) (ref est : list PoseR) :
+  Forall (fun p => Orth (prot p)) est -> Orth (prot t) -> rel = rotation_angle_rad \/ rel = rotation_angle_deg ->
+  apeR rel (map (fun p => pmul p t) ref) (map (fun p => pmul p t) est) = apeR rel ref est.
+Proof.
+  intros Fe Ot Hrel. unfold ape. rewrite !map_length. destruct (Nat.eqb _ _); [|reflexivity]. f_equal.
+  revert est Fe. induction ref as [|a ref IH]; intros [|b est] Fe; cbn [map combine]; try reflexivity.
+  inversion Fe as [|? ? Hb Fe']; subst. f_equal; [now apply ape_rotation_angle_body_frame_invariant|now apply IH].
+Qed.
